@@ -227,9 +227,9 @@ def run_property(prop, tier, seed, args):
             errors.append((r["qualname"], r["case"], "zero obligations generated"))
         fn_rows.append({"function": label, "source_hash": r["source_hash"], "paths": r["paths"], "obligations": n,
                         "exits": r["exits"], "solver_s": r["solver_s"], "wall_s": r["wall_s"]})
-        if len(samples) < 6:
-            for name, o in list(r["obligations"].items())[:2]:
-                samples.append({"obligation": name + (f" [{r['case']}]" if r["case"] else ""), **o})
+        if len(samples) < 8:
+            for smp in r.get("samples", [])[:2]:
+                samples.append({**smp, "case": r["case"]})
         # refutations -> replay
         seen = set()
         for ref in r["refutations"]:
@@ -302,9 +302,9 @@ def run_property(prop, tier, seed, args):
             "dropped_constructs": sorted(dropped),
             "contracts_used_at_call_sites": sorted(a for a in assumptions if a.startswith("contract:")),
             "known_findings": known_lines,
-            "explanation": index.EXPLAIN.get(prop, ""),
+            "explanation": _claim(prop).get("text", ""),
         },
-        "assumptions": sorted(assumptions) + index.ASSUMPTIONS.get(prop, []),
+        "assumptions": sorted(assumptions) + index.ASSUMPTIONS.get(prop, []) + ([_claim(prop)["note"]] if _claim(prop).get("note") else []),
         "wall_s": round(wall, 3),
         "violations": len(violations),
     }
@@ -337,6 +337,15 @@ def run_property(prop, tier, seed, args):
               " (run with -v for the list)")
         return 3
     return 0
+
+
+def _claim(prop):
+    try:
+        from contracts.claims import CLAIMS
+
+        return CLAIMS.get(prop, {})
+    except Exception:
+        return {}
 
 
 def replay_path(prop, obligation):
